@@ -294,6 +294,8 @@ pub struct Gen {
     dead_ops: usize,
     was_live: bool,
     pub next_spid: u16,
+    /// an AfterNextConnack step was just issued: the next step is the Connect
+    pub pipelined_armed: bool,
     pub steps_left: usize,
     /// sweep support: inject this fault into the n-th connection (0-based)
     pub forced_fault: Option<(usize, FaultPlan)>,
@@ -302,12 +304,13 @@ pub struct Gen {
     emitted: usize,
     /// 0 = not decided, 1 = hold the acknowledgements first, 2 = issue the filler, 3 = done / off
     fill_stage: u8,
+    fill_then_qos0: bool,
     fill_wait: usize,
 }
 
 impl Gen {
     pub fn new(seed: u64, p: Profile) -> Self {
-        Gen { rng: Rng::new(seed), p, tag: 0, conns: 0, dead_ops: 0, was_live: false, next_spid: 1, steps_left: 60, forced_fault: None, forced_cancel: None, emitted: 0, fill_stage: 0, fill_wait: 0 }
+        Gen { rng: Rng::new(seed), p, tag: 0, conns: 0, dead_ops: 0, was_live: false, next_spid: 1, pipelined_armed: false, steps_left: 60, forced_fault: None, forced_cancel: None, emitted: 0, fill_stage: 0, fill_then_qos0: false, fill_wait: 0 }
     }
 
     fn cancel(&mut self) -> Option<usize> {
@@ -811,6 +814,24 @@ impl Gen {
             if self.rng.chance(1, 12) {
                 return Some(Step::Advance(*self.rng.pick(&[1u64, 1_000_000, 100_000_000])));
             }
+            // one later connection in six: the broker has a message or two queued for the client
+            // and sends them in the same segment as the CONNACK
+            if self.conns >= 1 && !self.pipelined_armed && self.p.w_bpublish > 0 && !self.p.hostile_broker && self.rng.chance(1, 6) {
+                let mut q = Vec::new();
+                for _ in 0..self.rng.range(1, 2) {
+                    if let Some(pk) = self.broker_publish(v) {
+                        if !matches!(&pk, crate::refcodec::SPacket::Publish { dup: true, .. }) {
+                            q.push(pk);
+                        }
+                    }
+                }
+                if !q.is_empty() {
+                    self.pipelined_armed = true;
+                    self.steps_left += 1;
+                    return Some(Step::Broker(BrokerAct::AfterNextConnack(q)));
+                }
+            }
+            self.pipelined_armed = false;
             self.conns += 1;
             return Some(Step::Connect(self.connect_spec(v)));
         }
@@ -871,7 +892,12 @@ impl Gen {
         if self.fill_stage == 2 {
             self.fill_stage = 3;
             let tx = v.snap.tx.capacity.saturating_sub(v.snap.tx.retained.iter().map(|e| e.len).sum::<usize>());
-            let leave = self.rng.below(41);
+            // (one filler in three leaves just over 128 bytes and is followed by a QoS 0 publish of
+            // about that size: a packet whose Remaining Length needs two bytes, encoded in a gap
+            // that just holds it)
+            let roomy = self.rng.chance(1, 3);
+            let leave = if roomy { self.rng.range(127, 135) } else { self.rng.below(41) };
+            self.fill_then_qos0 = roomy;
             // PUBLISH "f": 1 + remaining-length bytes + 2 + 1 (topic) + 2 (identifier) + 1 (property length) + payload
             let total = tx.saturating_sub(leave);
             let rlb = if total >= 16_384 + 4 { 3 } else if total >= 128 + 3 { 2 } else { 1 };
@@ -881,6 +907,12 @@ impl Gen {
                 self.tag += 1;
                 return Some(Step::Publish(PubSpec { topic: "f".into(), payload: PayloadSpec::Fill { len: total - overhead, tag: self.tag, ascii: false }, qos: 1, retain: false, props: vec![], correlate: None, cancel_at: None }));
             }
+        }
+        if self.fill_then_qos0 {
+            self.fill_then_qos0 = false;
+            self.tag += 1;
+            let len = self.rng.range(118, 131);
+            return Some(Step::Publish(PubSpec { topic: "g".into(), payload: PayloadSpec::Fill { len, tag: self.tag, ascii: false }, qos: 0, retain: false, props: vec![], correlate: None, cancel_at: None }));
         }
         Some(self.live_step(v))
     }
